@@ -29,6 +29,7 @@ const cryptoPkg = "pkg/meta/internal/crypto."
 const sbox = "golang.org/x/crypto/nacl/secretbox."
 
 func runC19(x *Ctx) {
+	newHelperPred = x.P.IsNewHelper
 	x.C.Rule("C19.R1", "secretbox and the crypto helpers are called only from their owners", 3)
 	x.C.Rule("C19.R2", "EncryptWithKey: key validated, fresh random nonce, same nonce sealed and prefixed", 5)
 	x.C.Rule("C19.R3", "DecryptStringWithKey: key validated, length >= 24, plaintext only on ok", 6)
@@ -389,6 +390,10 @@ func arrLen(a *ssa.Alloc) int64 {
 }
 
 // otherWriters lists stores / calls (other than the allowed callees) that may write array a.
+// newHelperPred tells whether a function is a helper that did not exist when the rules were confirmed (set by the
+// C19 run; such helpers are looked through).
+var newHelperPred func(*ssa.Function) bool
+
 func otherWriters(a *ssa.Alloc, allowed map[string]bool) string {
 	return otherWritersOpt(a, allowed, false)
 }
@@ -421,6 +426,15 @@ func otherWritersOpt(a *ssa.Alloc, allowed map[string]bool, wholeOK bool) string
 					name = paths.FuncName(g)
 				} else if b, ok := r.Common().Value.(*ssa.Builtin); ok {
 					name = "builtin." + b.Name()
+				}
+				if g != nil && newHelperPred != nil && newHelperPred(g) && len(g.Blocks) > 0 {
+					// a new helper of the module: what it does with the parameter it receives the array through
+					for i, arg := range r.Common().Args {
+						if arg == v && i < len(g.Params) {
+							visit(g.Params[i])
+						}
+					}
+					continue
 				}
 				if !allowed[name] {
 					out += name + ";"
